@@ -22,7 +22,8 @@ EXPLANATION = (
     " (R6) cone-size list of the header: the closing entry is the last cone of the type, entries are numel() of the cones with the matching tag; (R7) the solution copies iterations and residuals from the info on every path (C03.R1 re-run)."
     " (R8) the 'removed N constraints' figure: bookkeeping of the presolve reduction map (C09.R2 re-run)."
     " (R9) every print_to_* installs a freshly constructed target unconditionally; (R10) the header asks for the per-type line of every variant of SupportedConeTag."
-    ' (R12) Display for SolverStatus, through which the footer prints the status, gives distinct variants distinct names and no variant the name of another (derived Debug, a literal per arm, or a name function are followed).')
+    ' (R12) Display for SolverStatus, through which the footer prints the status, gives distinct variants distinct names and no variant the name of another (derived Debug, a literal per arm, or a name function are followed).'
+    " (R13) nothing but print_to_* replaces the print target: no whole write of DefaultInfo, of its stream or of the Solver's info elsewhere (a stream rebuilt by clone turns a Stream target into a Sink), and the print_to_* / get_print_buffer layers of DefaultInfo and Solver delegate to the same-named method with the same argument.")
 ASSUMPTIONS = ['rustc MIR construction and trait resolution are correct',
                'std::io::Write::write_fmt writes exactly the formatted bytes through Write::write (write_all loop)']
 
@@ -701,6 +702,64 @@ def status_names(rep, F, tag):
     R.guard(body)
 
 
+def target_survives(rep, F, tag):
+    """A target selected with print_to_* stays installed until the next print_to_*: nothing else replaces DefaultInfo::stream, the whole
+    DefaultInfo, or the Solver's info (a reset that rebuilds the struct from `..Default::default()` and a *clone* of the stream silently
+    turns a Stream target into a Sink - PrintTarget::clone cannot duplicate an arbitrary writer); and each print_to_* / get_print_buffer
+    of DefaultInfo and of the Solver hands its argument to the method of the same name one level down, unwrapped."""
+    R = rep.rule('C20.R13', 'the installed print target is replaced only by print_to_*: no other whole write of DefaultInfo / its stream; the print_to_* layers delegate to the same-named method with the same argument')
+
+    def body():
+        def whole_writes(owner_sub, fields):
+            out = []
+            for g in F.fns:
+                for bi, si, st in g.assignments():
+                    pr = st['p']['p']
+                    if not pr or pr[0] != '*':
+                        continue
+                    ty = g.local_ty(st['p']['l'])
+                    if not (ty.startswith('&mut ') and owner_sub in ty):
+                        continue
+                    rest = pr[1:]
+                    if rest == [] or (len(rest) == 1 and isinstance(rest[0], dict) and rest[0].get('n') in fields and owner_sub.rstrip('<') in rest[0].get('o', '')):
+                        out.append((g, 'the whole struct' if not rest else rest[0]['n']))
+            return out
+        # positive control: the five PrintTarget::print_to_* do replace *self
+        ctl = [g for g, w in whole_writes('io::PrintTarget', ()) if g.name.startswith('print_to_')]
+        R.check(len(set(g.name for g in ctl)) == 5, 'control' + tag, 'whole-write detection found only %s among PrintTarget::print_to_*' % sorted(set(g.name for g in ctl)))
+        bad = whole_writes('info::DefaultInfo<', ('stream',)) + [(g, w) for g, w in whole_writes('solver::Solver<', ('info',)) if w == 'info']
+        for g, w in bad:
+            R.bad('replaced|%s|%s%s' % (g.name, w, tag), '%s overwrites %s of the info: the print target selected by the user does not survive (a rebuilt stream is a clone, and '
+                  'cloning a Stream target yields a Sink)' % (g.name, w), g.loc())
+        for g in F.fns:
+            for c in g.calls:
+                if c.callee.name in ('replace', 'swap', 'take') and c.args:
+                    a = canon(g.sym_operand(c.args[0]))
+                    if a.endswith('.stream') and ('info' in a or a == 'self.stream') and 'DefaultInfo' in (g.impl_self or '') + ' '.join(g.local_ty(i) for i in range(1, g.argc + 1)):
+                        R.bad('replaced|%s|call%s' % (g.name, tag), '%s swaps the print target out with %s' % (g.name, c.callee.name), g.loc(c.sp))
+        if not bad:
+            R.ok('no-other-writer' + tag, {'functions': len(F.fns)})
+        n = 0
+        for nm in ('print_to_stdout', 'print_to_file', 'print_to_stream', 'print_to_sink', 'print_to_buffer', 'get_print_buffer'):
+            for g in F.find(name=nm):
+                owner = g.impl_self or ''
+                oname = last_seg(strip_generics(owner))
+                if oname == 'PrintTarget':
+                    continue
+                field = 'self.stream' if oname == 'DefaultInfo' else 'self.info'
+                want = '%s(%s%s)' % (nm, field, ', arg2' if nm in ('print_to_file', 'print_to_stream') else '')
+                for val, ret, ev, tr in Walker(g).leaves():
+                    if ret[0] == 'diverge':
+                        continue
+                    calls = [str(e[2]) for e in ev if e[0] == 'call']
+                    n += 1
+                    R.check(calls == [want], 'delegates|%s|%s%s' % (nm, 'info' if field == 'self.stream' else 'solver', tag),
+                            '%s of %s calls %s, expected exactly %s (the target the user names is the target that is installed, unwrapped)' % (nm, last_seg(strip_generics(owner)), calls, want), g.loc())
+        R.check(n >= 12, 'delegations' + tag, 'only %d delegating print_to_* analysed' % n)
+
+    R.guard(body)
+
+
 def run(ctx, rep, tier):
     for cfg in CONFIGS:
         F = ctx.facts(cfg)
@@ -717,6 +776,7 @@ def run(ctx, rep, tier):
         buffer_read_only(rep, F, tag)
         cone_type_lines(rep, F, tag)
         status_names(rep, F, tag)
+        target_survives(rep, F, tag)
         # 'presolve: removed N constraints' is mfull - mreduced: the bookkeeping of the reduction map (C09.R2 re-run)
         from . import c09
         c09.drop_condition(c04._Ren(rep, 'C09.R2', 'C20.R8'), F, tag)
